@@ -180,7 +180,8 @@ class ExonCorrector:
             if event.event_type == MatchEventSubtype.fake_terminal_exon_left and \
                     self.params.correct_fake_terminal_exons:
                 assert event.read_region[0] == event.read_region[1]
-                # fake terminal exon, skip it
+                # fake terminal exon, skip it together with a micro-intron restored inside it
+                new_introns = []
                 corrected_read_region = (read_introns[event.read_region[0]][1]+1, corrected_read_region[1])
             elif event.event_type == MatchEventSubtype.fake_terminal_exon_right and \
                     self.params.correct_fake_terminal_exons:
